@@ -85,14 +85,15 @@ def typedef_names(c):
     return set(d['name'] for d in c.typedefs)
 
 
-def strip_forced(m, tdn):
-    """aggregate display names forced by a typedef in-line (recorded C11
-    finding) are not a parser disagreement: compare by kind only for those"""
-    if isinstance(m, tuple):
-        if len(m) == 2 and m[0] in ('struct', 'union', 'enum'):
-            return (m[0], '?') if m[1] in tdn or True else m
-        return tuple(strip_forced(x, tdn) for x in m)
-    return m
+def same_meaning(m1, m2, tdn):
+    """equality of two meanings; an aggregate whose in-line display name was
+    forced by a typedef (recorded C11 finding) matches the aggregate of the same
+    kind whatever its name"""
+    if isinstance(m1, tuple) and isinstance(m2, tuple):
+        if len(m1) == 2 and len(m2) == 2 and m1[0] in ('struct', 'union', 'enum'):
+            return m1[0] == m2[0] and (m1[1] == m2[1] or m1[1] in tdn)
+        return len(m1) == len(m2) and all(same_meaning(a, b, tdn) for a, b in zip(m1, m2))
+    return m1 == m2
 
 
 SPEC_WORDS = set('char short int long signed unsigned float double _Bool void _Complex'.split())
@@ -320,7 +321,7 @@ def child_case(st, case):
                     return 'RR'
                 if a is not None and b is not None:
                     m1, m2 = meaning(ffi1, a), meaning(ffi2, b)
-                    if m1 == m2 or strip_forced(m1, tdn) == strip_forced(m2, tdn):
+                    if same_meaning(m1, m2, tdn):
                         return 'AA='
                     return 'AA'
                 return 'AR' if a is not None else 'RA'
